@@ -277,7 +277,12 @@ func SuperviseMain(id string, tier Tier, seed int64) int {
 	}
 	newViolations := 0
 	knownHits := 0
-	os.MkdirAll(filepath.Join(root, "replay"), 0o755)
+	// VERIF_OUT redirects evidence and replay files (used by self-tests on scratch copies)
+	outRoot := root
+	if d := os.Getenv("VERIF_OUT"); d != "" {
+		outRoot = d
+	}
+	os.MkdirAll(filepath.Join(outRoot, "replay"), 0o755)
 	for _, sig := range sigOrder {
 		vs := bySig[sig]
 		if f, ok := known[sig]; ok {
@@ -288,7 +293,7 @@ func SuperviseMain(id string, tier Tier, seed int64) int {
 		newViolations++
 		v := vs[0]
 		sum := sha1.Sum([]byte(fmt.Sprintf("%s|%s|%s|%d|%d", id, sig, tier, seed, v.Global)))
-		path := filepath.Join(root, "replay", fmt.Sprintf("%s-%x.json", id, sum[:6]))
+		path := filepath.Join(outRoot, "replay", fmt.Sprintf("%s-%x.json", id, sum[:6]))
 		doc := map[string]any{"property": id, "sig": sig, "occurrences_in_run": len(vs), "violation": v,
 			"replay": fmt.Sprintf("./run.sh replay %s", path)}
 		b, _ := json.MarshalIndent(doc, "", "  ")
@@ -355,8 +360,8 @@ func SuperviseMain(id string, tier Tier, seed int64) int {
 		"violations":  newViolations,
 	}
 	b, _ := json.MarshalIndent(ev, "", " ")
-	os.MkdirAll(filepath.Join(root, "evidence"), 0o755)
-	os.WriteFile(filepath.Join(root, "evidence", id+".json"), append(b, '\n'), 0o644)
+	os.MkdirAll(filepath.Join(outRoot, "evidence"), 0o755)
+	os.WriteFile(filepath.Join(outRoot, "evidence", id+".json"), append(b, '\n'), 0o644)
 	fmt.Fprintf(os.Stderr, "[%s] cases=%d/%d evaluations=%d distinct_nontrivial=%d violations=%d known=%d inconclusive=%d wall=%.1fs\n",
 		id, cases, total, evals, len(hashes), newViolations, knownHits, len(inconclusive), time.Since(t0).Seconds())
 
